@@ -170,6 +170,8 @@ def configurations(seed):
     cfg.append(('contract per run INVOKE', 'INVOKE', {}, None, b''))
     cfg.append(('contract global INVOKE', 'INVOKE', {}, 'contract-global', b''))
     cfg.append(('contract per run CHECK_TRANSFER', 'CHECK_TRANSFER', {}, None, b''))
+    # a contract supplied to the run is the one reached, also when another object is registered globally under the same id
+    cfg.append(('contract per run INVOKE, id also registered', 'INVOKE', {}, 'contract-shadowed', b''))
     # the flag instructions change exactly the flag they name (probe of k and of its neighbours in the same body)
     for k in range(11):
         for instr, fl in (('UNSET_FLAG', {}), ('SET_FLAG', {k: False})):
@@ -182,6 +184,12 @@ def configurations(seed):
             for hi in ((0, 1, 255) if instr == 'SET_FLAG' else (0, 1)):
                 cfg.append(('%s x%02x%02x then probe %d' % (instr, hi, k, k), FLAG_PROBE[k], dict(fl), None,
                             op(instr) + b'\x02' + bytes([hi, k])))
+    # the flag instructions reach integer flags only: a named (str-keyed) setting of the embedder spelled out in utf-8 is not a flag
+    for fname, pname, fl in (('disallow_OP_EVAL', 'EVAL', {'disallow_OP_EVAL': True}), ('ts_threshold', 'CTS', {'ts_threshold': 5}),
+                             ('epoch_threshold', 'CE', {'epoch_threshold': 5}), ('eval_return', 'EVAL_RETURN', {'eval_return': True})):
+        for instr in ('UNSET_FLAG', 'SET_FLAG'):
+            cfg.append(('%s %s (utf-8 name) then probe' % (instr, fname), pname, dict(fl), None,
+                        op(instr) + bytes([len(fname)]) + fname.encode()))
     for k, pname in ((7, 'DAS'), (9, 'DAS'), (9, 'SIGN_STACK'), (4, 'MASV'), (5, 'MASV'), (6, 'MASV'), (3, 'MASV'), (8, 'MASV')):
         cfg.append(('UNSET_FLAG %d then probe %s' % (k, pname), pname, {}, None, op('UNSET_FLAG') + b'\x01' + bytes([k])))
     return cfg
@@ -217,6 +225,12 @@ def case_fn(ctx, case):
         F.add_contract(b'c1', contracts[b'c1'])
         glob.append(lambda: F.remove_contract(b'c1'))
         run_contracts = {}
+    if mode == 'contract-shadowed':
+        class Shadow:
+            def abi(self, args):
+                return [b'registered one']
+        F.add_contract(b'c1', Shadow())
+        glob.append(lambda: F.remove_contract(b'c1'))
     ref_flags = flags
     if type(mode) is tuple:
         k_off = mode[1]
